@@ -242,7 +242,11 @@ def seq_at(s, k):
             off = off + 1
         else:
             ln = z3.Length(e)
-            cases.append((off, off + ln, e[ke - off]))
+            rep = S.ctx().ghost.get("rep_consts", {}) if S.active() else {}
+            if e.get_id() in rep:
+                cases.append((off, off + ln, z3.IntVal(rep[e.get_id()])))      # a run of one constant (sym.repeat_seq)
+            else:
+                cases.append((off, off + ln, e[ke - off]))
             off = off + ln
     r = cases[-1][2]
     for (lo, hi, v) in reversed(cases[:-1]):
